@@ -240,11 +240,10 @@ func (p *Prog) smtTextI(ob *Obligation, uses []string, reduced, ground, intAddr 
 	{
 		have := map[string]bool{}
 		for _, u := range uses {
-			f := u
+			have[u] = true
 			if i := strings.Index(u, ":"); i >= 0 {
-				f = u[:i]
+				have[u[:i]] = true
 			}
-			have[f] = true
 		}
 		seenU := map[*Term]bool{}
 		var scanU func(t *Term)
